@@ -56,6 +56,8 @@ def merged_events(case):
 
 
 def model_request(case):
+    if case["op"] == "grp_resub":
+        return None          # oracle only: the same grouped observable subscribed twice vs. a fresh pipeline
     evs = [ev for _, ev in merged_events(case)]
     if case["op"] == "grp_part":
         return {"op": "grp_part", "indexed": case["indexed"], "pred": case["pred"], "slots": case["slots"], "events": evs}
@@ -93,9 +95,81 @@ def _run(sched, escaped):
             sched._is_enabled = False
 
 
+def _resub_run(case, sub_times, dispose_first):
+    """one scheduler, ONE grouped observable over a cold source, subscribed at each of sub_times with fresh recorders
+    (outer and per group); returns one record per subscription"""
+    import reactivex as rx
+    from reactivex import operators as ops
+    from reactivex.testing import ReactiveTest, TestScheduler
+
+    sched = TestScheduler()
+    now = lambda: int(sched.clock)
+
+    def cold(msgs):
+        rec = []
+        for t, n in msgs:
+            rec.append(ReactiveTest.on_next(t, fw.dec(n[1])) if n[0] == "N" else
+                       ReactiveTest.on_completed(t) if n[0] == "C" else ReactiveTest.on_error(t, InjectedError(n[1])))
+        return sched.create_cold_observable(*rec)
+
+    src = cold(case["src"])
+    keyf = FnTab.from_json(case["key"])
+    elemf = FnTab.from_json(case["elem"]) if case["elem"] is not None else None
+    durs = [cold(d["cold"]) if "cold" in d else None for d in case["durs"]]
+    durf = FnTab.from_json(case["dur_of_key"])       # key -> index into the duration pool (or -1: never)
+
+    def duration_mapper(grp):
+        i = durf(grp.key)
+        d = case["durs"][i] if 0 <= i < len(durs) else {"never": 1}
+        if "cold" in d:
+            return durs[i]
+        if "sync" in d:
+            return rx.empty()
+        return rx.never()
+
+    if case["until"]:
+        xs = src.pipe(ops.group_by_until(keyf, elemf, duration_mapper))
+    else:
+        xs = src.pipe(ops.group_by(keyf, elemf))
+    records, subs = [], []
+
+    def mk_sub(i):
+        log = []
+        records.append(log)
+        cnt = [0]
+
+        def on_group(grp):
+            g = cnt[0]; cnt[0] += 1
+            log.append([now(), "O", ["G", g, enc(grp.key)]])
+            grp.subscribe(lambda v: log.append([now(), "S", g, ["N", enc(v)]]),
+                          lambda e: log.append([now(), "S", g, ["E", err_name(e)]]),
+                          lambda: log.append([now(), "S", g, ["C"]]))
+
+        def act(*_):
+            subs.append(xs.subscribe(on_group, lambda e: log.append([now(), "O", ["E", err_name(e)]]),
+                                     lambda: log.append([now(), "O", ["C"]])))
+        return act
+
+    for i, t in enumerate(sub_times):
+        sched.schedule_absolute(t, mk_sub(i))
+    if dispose_first is not None:
+        sched.schedule_absolute(dispose_first, lambda *_: subs[0].dispose() if subs else None)
+    escaped = []
+    _run(sched, escaped)
+    return records, escaped
+
+
+def impl_resub(case):
+    both, esc1 = _resub_run(case, [SUB_AT, case["sub2"]], case["dispose1"])
+    fresh, esc2 = _resub_run(case, [case["sub2"]], None)
+    return {"first": both[0], "second": both[1], "fresh": fresh[0], "escaped": esc1 + esc2}
+
+
 def impl(case):
     if case["op"] == "grp_part":
         return impl_part(case)
+    if case["op"] == "grp_resub":
+        return impl_resub(case)
     import reactivex as rx
     from reactivex import operators as ops
     from reactivex.subject import Subject
@@ -234,7 +308,7 @@ def impl_part(case):
 
 # ------------------------------------------------------------------------------------------ canonical forms
 def canon_impl(case, out):
-    if case["op"] == "grp_part":
+    if case["op"] in ("grp_part", "grp_resub"):
         return out
     log = [e for e in out["log"] if e[1] not in ("K", "M")]
     wl = {}
@@ -428,7 +502,36 @@ def gen_part(rng):
     return {"op": "grp_part", "indexed": indexed, "src": src, "pred": pred, "slots": slots, "acts": acts}
 
 
+def gen_resub(rng):
+    pool = rng.choice([list(range(6)), MIXED])
+    keys = rng.choice([["a", "b"], ["a", "b", "c"], FALSY, [0, 1]])
+    key = _fn(rng, pool, keys, 0.03 if rng.random() < 0.2 else 0.0, "kerr")
+    elem = None if rng.random() < 0.6 else _fn(rng, pool, [("e", 0), None, 0, "", 7], 0.0, "eerr")
+    t, src = rng.choice([1, 5, 10]), []
+    for _ in range(rng.choice([1, 2, 3, 4, 6])):
+        src.append([t, ["N", enc(rng.choice(pool))]]); t += rng.choice([5, 10, 20])
+    r = rng.random()
+    if r < 0.6:
+        src.append([t, ["C"]])
+    elif r < 0.8:
+        src.append([t, ["E", "s0"]])
+    until = rng.random() < 0.6
+    durs, dur_of_key = [], {"tab": [], "dflt": -1}
+    if until:
+        for g in range(3):
+            k = rng.random()
+            durs.append({"never": 1} if k < 0.25 else {"sync": ["C"]} if k < 0.3 else
+                        {"cold": [[rng.choice([5, 10, 15, 20, 40]), rng.choice([["N", 0], ["C"]])]]})
+        dur_of_key = _fn(rng, keys, [0, 1, 2, -1], 0.0, "x", dflt=-1)
+    sub2 = rng.choice([1000, 1000, 1000, 230, 205])
+    dispose1 = rng.choice([None, None, SUB_AT + rng.choice([3, 12, 30, 300])])
+    return {"op": "grp_resub", "until": until, "src": src, "key": key, "elem": elem, "durs": durs, "dur_of_key": dur_of_key,
+            "sub2": sub2, "dispose1": dispose1}
+
+
 def cases(rng, tier):
+    for _ in range(fw.tier_scale(tier, 150, 1500)):
+        yield gen_resub(rng)
     for _ in range(fw.tier_scale(tier, 3000, 30000)):
         yield gen_group(rng)
     for _ in range(fw.tier_scale(tier, 1000, 10000)):
@@ -468,6 +571,11 @@ def oracle(case, out):
         return f"exception escaped into the scheduler: {out['escaped'][:3]}"
     if case["op"] == "grp_part":
         return oracle_part(case, out)
+    if case["op"] == "grp_resub":
+        if fw.key(out["second"]) != fw.key(out["fresh"]):
+            return (f"second subscription of the same grouped observable differs from a fresh one: second (subscribed @{case['sub2']}) "
+                    f"recorded {out['second']}, a fresh pipeline subscribed at the same time records {out['fresh']}")
+        return None
     return oracle_group(case, out)
 
 
@@ -753,6 +861,8 @@ def oracle_part(case, out):
 
 
 def nontrivial(case, out):
+    if case["op"] == "grp_resub":
+        return len(out["fresh"]) >= 3
     if case["op"] == "grp_part":
         return len({e[2] for e in out["log"]}) >= 2
     groups = [e for e in out["log"] if e[1] == "O" and e[2][0] == "G"]
@@ -761,6 +871,10 @@ def nontrivial(case, out):
 
 def bucket(case, out):
     yield case["op"]
+    if case["op"] == "grp_resub":
+        yield "resubscription"
+        yield "resubscription:" + ("overlapping" if case["sub2"] < 600 else "after-first-ended" if case["dispose1"] or any(n[0] != "N" for _, n in case["src"]) else "first-still-open")
+        return
     if case["op"] == "grp_part":
         yield "part:indexed" if case["indexed"] else "part:plain"
         if any(e[3][0] == "E" and e[3][1] == "perr" for e in out["log"]):
@@ -825,6 +939,12 @@ def shrink(case):
         c = dict(case); c.update(kw); return c
     for i in range(len(case["src"])):
         yield cp(src=case["src"][:i] + case["src"][i + 1:])
+    if case["op"] == "grp_resub":
+        if case["dispose1"] is not None:
+            yield cp(dispose1=None)
+        if case["until"]:
+            yield cp(until=False)
+        return
     for i in range(len(case["acts"])):
         yield cp(acts=case["acts"][:i] + case["acts"][i + 1:])
     if case["op"] == "grp_part":
@@ -850,7 +970,8 @@ RULE = ("group cases: hot source (0..12 elements over value pools incl. None/0/F
         "optional element tables, raising key/element/subject/duration mappers, a pool of hot duration observables firing N/C/E at the instants of "
         "elements (both creation orders), between and after, never-firing and synchronously-firing durations, outer disposal, late group "
         "subscriptions and group-subscriber disposals at generated times; partition cases: partition / partition_indexed with 2..4 subscriptions "
-        "to the two outputs at different times, disposals, raising / non-boolean predicates. Distinct by canonical JSON; non-trivial = at least two "
+        "to the two outputs at different times, disposals, raising / non-boolean predicates; re-subscription cases (oracle only): ONE grouped observable over "
+        "a cold source subscribed at 200 and again (after the first ended, or overlapping) must record what a fresh pipeline records. Distinct by canonical JSON; non-trivial = at least two "
         "groups announced and an element delivered (groups), at least two subscriptions received something (partition).")
 ASSUMPTIONS = [
     "single-threaded / virtual-time execution: one run is one finite list of tagged events (source, duration #g, disposals, late subscriptions); theorems quantify over all such lists",
